@@ -30,8 +30,8 @@ import traceback
 from collections import Counter
 
 ROOT = os.path.dirname(os.path.dirname(os.path.abspath(__file__)))
-EVIDENCE_DIR = os.path.join(ROOT, 'evidence')
-REPLAY_DIR = os.path.join(ROOT, 'replays')
+EVIDENCE_DIR = os.environ.get('NVERIF_EVIDENCE_DIR') or os.path.join(ROOT, 'evidence')
+REPLAY_DIR = os.environ.get('NVERIF_REPLAY_DIR') or os.path.join(ROOT, 'replays')
 WORK_DIR = os.path.join(ROOT, '.work')
 NSHARDS = int(os.environ.get('VERIF_SHARDS', '16'))
 MAX_SAMPLES = 4          # per shard
@@ -293,8 +293,19 @@ def shard_main(prop_id, tier, seed, shard, nshards, out_path):
                       violation=dict(replay=path, clause=v2.clause, message=v2.message,
                                      key=jsonable(key)))
     except BaseException as exc:      # harness error
-        result.update(status='error', error='%s: %s' % (type(exc).__name__, exc),
-                      traceback=traceback.format_exc())
+        flaky = type(exc).__name__ in ('Flaky', 'FlakyFailure', 'FlakyReplay') and ctx.last_failure
+        if flaky:
+            # a violation that did not reproduce on Hypothesis' replay (schedule dependent, C09
+            # threads): it was observed against the real code, so it is reported, un-shrunk
+            case, v2, key = ctx.last_failure
+            path = write_replay(prop_id, case, v2, key, seed, tier)
+            result.update(status='violation',
+                          violation=dict(replay=path, clause=v2.clause,
+                                         message=v2.message + ' [did not reproduce on replay: '
+                                         'schedule-dependent]', key=jsonable(key)))
+        else:
+            result.update(status='error', error='%s: %s' % (type(exc).__name__, exc),
+                          traceback=traceback.format_exc())
     result['ctx'] = ctx.dump()
     result['wall_s'] = time.time() - t0
     with open(out_path, 'w') as fh:
